@@ -79,6 +79,17 @@ func hostile(i int, kind string) (alphh.Msg, map[string]alphh.TokenAnswer) {
 		m.Sender, m.CL = alphh.BridgeID, "256"
 	case "event-index-1":
 		m.Index = 1
+	case "empty-payload": // six well-formed fields, but the payload ByteVec is empty
+		m.Payload = ""
+	case "payload-odd-hex":
+		m.Payload = "019"
+	case "attest-tag-only": // the attestation tag and nothing behind it, also when it claims the token bridge as caller
+		m.Payload, m.Target = "02", "0"
+		if i%2 == 1 {
+			m.Sender = alphh.BridgeID
+		}
+	case "transfer-tag-only":
+		m.Payload = "01"
 	default: // attestation-shaped, naming a contract whose metadata calls misbehave
 		tid := tokBase + fmt.Sprintf("%02x", i)
 		m.Payload, m.Target = alphh.AttestPayload(tid, 8, "EVIL", "Evil token"), "0"
@@ -108,7 +119,7 @@ func hostile(i int, kind string) (alphh.Msg, map[string]alphh.TokenAnswer) {
 	return m, toks
 }
 
-var hostileKinds = append([]string{"foreign-sender", "five-fields", "seven-fields", "nonce-3-bytes", "target-65536", "level-256", "non-numeric", "sender-31-bytes", "bridge-sender-malformed", "event-index-1"}, tokenKinds...)
+var hostileKinds = append([]string{"foreign-sender", "five-fields", "seven-fields", "nonce-3-bytes", "target-65536", "level-256", "non-numeric", "sender-31-bytes", "bridge-sender-malformed", "event-index-1", "empty-payload", "payload-odd-hex", "attest-tag-only", "transfer-tag-only"}, tokenKinds...)
 
 // wellFormed is the reference reading of "well-formed token-bridge message".
 func wellFormed(m alphh.Msg, toks map[string]alphh.TokenAnswer) bool {
